@@ -32,6 +32,22 @@ func (fx *FuncExec) calleeName(c *ssa.CallCommon, st *State) (name string, fn *s
 	if c.IsInvoke() {
 		r := fx.val(st, c.Value)
 		it := c.Value.Type()
+		if fx.fc != nil {
+			if cl, ok := fx.fc.Dispatch["("+typeKey(it)+")"]; ok {
+				// `dispatch`: the dynamic type is proved to be the named concrete type, so this
+				// invoke is a call of that type's method
+				env := fx.specEnv(st, fx.entry)
+				ct := fx.specType(env, cl.Expr)
+				fx.oblige("dispatch", st, eq("(i.tag "+r.S+")", fmt.Sprintf("%d", fx.em.Tag(ct))),
+					fmt.Sprintf("the dynamic type of the %s receiver is %s", typeKey(it), typeKey(ct)), c.Pos())
+				if m := fx.V.prog.LookupMethod(ct, c.Method.Pkg(), c.Method.Name()); m != nil {
+					s := fx.em.SortOf(ct)
+					rv := Val{T: ct, Sort: s, S: fx.em.Unbox("(i.val "+r.S+")", s)}
+					return fx.V.funcKey(m), m, nil, &rv
+				}
+				panic(toolLimit("dispatch: %s has no method %s", typeKey(ct), c.Method.Name()))
+			}
+		}
 		return "(" + typeKey(it) + ")." + c.Method.Name(), nil, nil, &r
 	}
 	switch v := c.Value.(type) {
@@ -57,6 +73,9 @@ func (fx *FuncExec) calleeName(c *ssa.CallCommon, st *State) (name string, fn *s
 		if a, ok := u.X.(*ssa.Alloc); ok && a.Comment != "" {
 			n = "dynamic:" + a.Comment
 		}
+		if fv, ok := u.X.(*ssa.FreeVar); ok {
+			n = "dynamic:" + fv.Name() // a captured function variable
+		}
 		if g, ok := u.X.(*ssa.Global); ok {
 			n = "dynamic:" + g.Name() // a package-level function variable
 		}
@@ -74,6 +93,10 @@ func (fx *FuncExec) calleeName(c *ssa.CallCommon, st *State) (name string, fn *s
 func (fx *FuncExec) execCall(st *State, instr ssa.Instruction, c *ssa.CallCommon, deferred bool) Val {
 	name, fn, binds, recv := fx.calleeName(c, st)
 	var args []Val
+	if c.IsInvoke() && fn != nil && recv != nil {
+		args = append(args, *recv) // dispatched invoke: the unboxed receiver is the first argument
+		recv = nil
+	}
 	for _, a := range c.Args {
 		args = append(args, fx.val(st, a))
 	}
@@ -106,12 +129,19 @@ func (fx *FuncExec) execCall(st *State, instr ssa.Instruction, c *ssa.CallCommon
 			ord = o
 		}
 	}
+	var siteFrame *CallSiteSpec
 	if fx.fc != nil {
 		for _, cs := range fx.fc.Calls {
 			if cs.Callee == short && (cs.Ordinal == ord || cs.Ordinal == -1) {
+				if cs.HasFrame {
+					siteFrame = cs
+				}
 				env := fx.specEnv(st, fx.entry)
 				fx.withLoop(env, st)
 				env.callArgs = args
+				if recv != nil {
+					env = env.with("recv", *recv)
+				}
 				for _, a := range cs.Asserts {
 					// evaluated in the discovery passes too (heap keys), obliged only in the real pass
 					fx.oblige("assert@call", st, fx.evalBool(env, a), fmt.Sprintf("at call %s#%d: %s", short, ord, a.Text), instr.Pos())
@@ -167,6 +197,15 @@ func (fx *FuncExec) execCall(st *State, instr ssa.Instruction, c *ssa.CallCommon
 		}
 	}
 	switch {
+	case siteFrame != nil:
+		// trusted frame declared at the call site for a contract-less callee
+		fx.callStats["site-frame"]++
+		fx.assumptions[fmt.Sprintf("trusted frame at call %s in %s: modifies %s", short, fx.relName(), frameText(siteFrame))] = true
+		env := fx.specEnv(st, st)
+		for _, m := range siteFrame.Frame {
+			fx.havocLocation(st, env, m)
+		}
+		fx.bumpTop(st, res)
 	case fn != nil && fx.V.inferPure(fn):
 		fx.callStats["inferred-pure"]++
 	case pkg != nil && purePkgs[pkg.Path()] && !hasFuncArg(args):
@@ -180,6 +219,17 @@ func (fx *FuncExec) execCall(st *State, instr ssa.Instruction, c *ssa.CallCommon
 	}
 	fx.refFacts(st, res)
 	return res
+}
+
+func frameText(cs *CallSiteSpec) string {
+	if len(cs.Frame) == 0 {
+		return "nothing"
+	}
+	var t []string
+	for _, c := range cs.Frame {
+		t = append(t, c.Text)
+	}
+	return strings.Join(t, ", ")
 }
 
 func hasFuncArg(args []Val) bool {
@@ -339,6 +389,15 @@ func (fx *FuncExec) havocByRule(st *State, pkg *types.Package, args []Val, binds
 		}
 		sort.Slice(cs, func(i, j int) bool { return cs[i].Name() < cs[j].Name() })
 		for _, c := range cs {
+			created := false
+			for _, mc := range fx.capturedAt[c] {
+				if fx.mayFollow(mc, fx.curInstr) {
+					created = true
+				}
+			}
+			if !created {
+				continue // no closure writing this cell exists yet
+			}
 			if old, ok := st.cells[c]; ok && old.S != "" {
 				nv := Val{T: old.T, Sort: old.Sort, S: fx.em.Fresh("captured:"+cellName(c), old.Sort)}
 				fx.typeFacts(nv)
